@@ -31,7 +31,13 @@ run_demo() { place_demo; (cd "$wt" && bash -e /tmp/sc-cmd.$$ >/tmp/sc-demo.$$ 2>
 run_demo; r0=$?
 git -C "$wt" status --short | awk '{print $2}' | while read f; do rm -f "$wt/$f"; done; git -C "$wt" checkout -q -- .
 git -C "$wt" apply "$src/patch.diff" || { echo "patch does not apply"; exit 2; }
-(cd "$wt" && go build ./varlink/... ./cmd/varlink-go-interface-generator/ && go test -vet=off -count=1 ./varlink/... ./cmd/varlink-go-interface-generator/ >/tmp/sc-base.$$ 2>&1); rb=$?
+# (the repository's tests use fixed abstract socket names: a concurrent run elsewhere on the machine makes them collide - retry)
+for try in 1 2 3; do
+  (cd "$wt" && go build ./varlink/... ./cmd/varlink-go-interface-generator/ && go test -vet=off -count=1 ./varlink/... ./cmd/varlink-go-interface-generator/ >/tmp/sc-base.$$ 2>&1); rb=$?
+  [ $rb -eq 0 ] && break
+  grep -aq "address already in use" /tmp/sc-base.$$ || break
+  sleep 3
+done
 run_demo; r1=$?
 tail -3 /tmp/sc-demo.$$ | cut -c1-200
 # remove demo files again (keep the patch)
